@@ -56,7 +56,14 @@ def parse_listing(text, radix=16):
             continue
         m = CONT_RE.match(ln)
         if m and cur is not None and cur["special"] is None:
-            _units(m.group(3)[:LISTLINESPACE], radix, ul, cur)
+            before = sum(u[1] for u in cur["units"])
+            if _units(m.group(3)[:LISTLINESPACE], radix, ul, cur) and len(cur["units"]) and \
+                    sum(u[1] for u in cur["units"]) > before:
+                # address shown on the continuation line, bytes listed before it
+                try:
+                    cur.setdefault("cont", []).append((int(m.group(1), radix), before))
+                except ValueError:
+                    pass
     return entries
 
 
